@@ -19,3 +19,49 @@ Print Assumptions C01_requote_refuted.
 
 Example C01_requote_example : forallb piece_safe [Lit [97; 92; 34; 32]%N; Other; Lit [39]%N] = true.
 Proof. reflexivity. Qed.
+
+(** * The lifting theorem (coq/Proofs/RunLift.v over the orchestration model coq/Model/Run.v)
+    Indexed by the guard tables extracted from the three pipelines' [apply]: when every pipeline returns before writing
+    if no change was reported, then for ANY codemod list, options, project and oracles: if every transformer maps text
+    that parses to text that parses, every non-manifest file that parsed before the run parses after it. *)
+From CM Require Import Model.Run Proofs.RunLift.
+Theorem C01_whole_run_lift : C01_lift_statement run_tables_v.
+Proof. exact C01_lift. Qed.
+Print Assumptions C01_whole_run_lift.
+
+(** a file without a changeset is byte-identical, hence still parses *)
+Theorem C01_unchanged_files_identical : C03_unchanged_statement.
+Proof. exact C03_unchanged. Qed.
+Print Assumptions C01_unchanged_files_identical.
+
+(** * Kernel theorems on the mini-Python AST (coq/Model/MiniPy.v, Rewrites.v): [wf e -> wf (rw e)] *)
+From CM Require Import Model.MiniPy Model.Rewrites Proofs.RewriteFacts.
+
+(** use-generator: the generator expression as sole argument needs no parentheses of its own *)
+Theorem C01_kernel_generator_wf : forall cfg f args, wf (ECall f args) = true -> wf (gen_call cfg f args) = true.
+Proof. exact gen_call_wf. Qed.
+Print Assumptions C01_kernel_generator_wf.
+
+(** use-set-literal: the empty list becomes [set()], never the dict display [{}]; non-empty lists become set displays *)
+Theorem C01_kernel_set_literal_empty :
+  rw_set_literal (ECall BSet [EList []]) = ECall BSet [] /\ wf (ECall BSet []) = true /\ wf (ESet []) = false.
+Proof. exact RewriteFacts.C01_kernel_set_literal_empty. Qed.
+Print Assumptions C01_kernel_set_literal_empty.
+Theorem C01_kernel_set_literal_nonempty : forall a es,
+  wf (ECall BSet [EList (a :: es)]) = true -> wf (rw_set_literal (ECall BSet [EList (a :: es)])) = true.
+Proof. exact RewriteFacts.C01_kernel_set_literal_nonempty. Qed.
+Print Assumptions C01_kernel_set_literal_nonempty.
+
+(** invert-boolean-check as pinned (245fc22) printed text that does not parse: the default branch duplicated the
+    comparator, and the replacement lost its parentheses; the repaired form (64f90ae) keeps well-formedness on the
+    second witness.  (fixed: kf_invert_default_branch, kf_invert_lost_parens) *)
+Theorem C01_kernel_invert_pinned_refuted :
+  (exists e, wf e = true /\ wf (invert_file Types_Kernels.pinned_invert e) = false) /\
+  (exists e, wf e = true /\ wf (invert_file Types_Kernels.pinned_invert e) = false /\
+             wf (invert_file Types_Kernels.repaired_invert e) = true).
+Proof.
+  split.
+  - exists w_default_in. destruct C01_kernel_invert_default_refuted as [H1 [H2 _]]. auto.
+  - exists w_not_after_cmp. destruct C01_kernel_invert_parens_refuted as [H1 [H2 [_ H4]]]. auto.
+Qed.
+Print Assumptions C01_kernel_invert_pinned_refuted.
